@@ -6,7 +6,7 @@ from checklib import Scenario
 RULE = ("every field kind (key, value, continuation line, section, comment before, comment after, file name, directory name, "
         "full path of the main file of a layered read at PATH_MAX-1 and just below, file name (NAME_MAX-5..NAME_MAX) and full path (PATH_MAX-6..PATH_MAX-1) handed to econf_writeFile, option string) x lengths {1, 2^k-1..2^k+1 for k = 6..12, BUFSIZ-2..BUFSIZ+2, 2*BUFSIZ, 64Ki (quick) / 1Mi (thorough)} and {NAME_MAX-1, NAME_MAX} "
         "x every API copying that field: read, plain getter, extended getter, merge, write + re-read, setters, layered read; "
-        "the oracle checks the LENGTH of what comes back against what was put in; values also against the model; "
+        "pairs of different keys / sections that agree in their first n bytes stay two; the oracle checks the LENGTH of what comes back against what was put in; values also against the model; "
         "distinct by (field, length)")
 
 BUFSIZ = 8192
@@ -39,6 +39,12 @@ def gen(rng, tier):
                     "merge 2 1 0", "getall 2", "reread 3 0", "getall 3"]
             s = Scenario(cmds, tags=(field,)); s.field, s.n = field, n
             out.append(s)
+        # two DIFFERENT names that agree in their first n bytes: two keys of one section, two sections
+        twin = b"k=0\n" + b"K" * n + b"a=first\n" + b"K" * n + b"b=second\n[" + b"S" * n + b"x]\nk=third\n[" + b"S" * n + b"y]\nk=fourth\n"
+        cmds = [gens.parse_cmd(0, b"/l/t.conf", twin, b"=", b"#"), "getall 0",
+                "set 0 string - %s %s 0" % (enc(b"K" * n + b"c"), enc(b"fifth")), "getall 0", "reread 1 0", "getall 1"]
+        s = Scenario(cmds, tags=("twins",)); s.field, s.n = "twins", n
+        out.append(s)
         # setters with long arguments
         cmds = ["newini 0", "set 0 string %s %s %s 0" % (enc(b"G" * n), enc(b"K" * n), enc(big)), "getall 0", "reread 1 0", "getall 1"]
         s = Scenario(cmds, tags=("setter",)); s.field, s.n = "setter", n
@@ -146,6 +152,11 @@ def oracle(s, ilines):
     if field in ("write-names", "write-pathmax"):
         if ilines[3] != "rc=0": return "econf_writeFile refuses a legal %s of %d bytes: %s" % ("file name" if field == "write-names" else "path", n, ilines[3])
         if not ilines[4].startswith("rc=0") or enc(b"written")[1:] not in ilines[5]: return "file written under a %d-byte name cannot be read back: %s %s" % (n, ilines[4][:80], ilines[5][:120])
+    if field == "twins":
+        for idx in (1, 3, 5):
+            for v in ([b"first", b"second", b"third", b"fourth"] + ([b"fifth"] if idx > 1 else [])):
+                if enc(v) not in ilines[idx].replace("=", " ").replace(";", " ").split() and ("v=" + enc(v)) not in ilines[idx]:
+                    return "two names with a common prefix of %d bytes are taken for one: value %r missing in `%s`" % (n, v, s.cmds[idx][:40])
     if field == "setter":
         for idx in (2, 4):
             l = ilines[idx]
